@@ -56,6 +56,7 @@ from itertools import product
 from typing import Callable
 
 import numpy as np
+from scipy.constants import mu_0 as MU0
 from scipy.spatial.transform import Rotation as R
 
 from magpylib._src.exceptions import MagpylibBadUserInput
@@ -516,6 +517,15 @@ def getBH_dict_level2(
             f"Input parameter `sources` must be one of {list(source_classes)}"
             " when using the functional interface."
         ) from err
+
+    # the documented alternative to `polarization`
+    if "magnetization" in kwargs and "polarization" not in kwargs:
+        try:
+            kwargs["polarization"] = np.array(kwargs.pop("magnetization"), dtype=float) * MU0
+        except (TypeError, ValueError) as err:
+            raise MagpylibBadUserInput(
+                "magnetization input must be array-like of shape (3,) or (n,3)."
+            ) from err
 
     kwargs["observers"] = observers
     kwargs["position"] = position
